@@ -73,6 +73,7 @@ type Beh struct {
 //
 //	block 8 (period end): delegations to v2 take effect (stake order changes), v6's creation takes effect (new validator),
 //	                      v7's complete withdrawal takes effect (removed): all between the two look-back blocks;
+//	(delegator d1 delegates to v2 AND to v1, and holds unfinished withdraw records against both)
 //	block 12 (period end): v5's complete withdrawal takes effect (removed since both look-back blocks), v2's partial
 //	                      withdrawal and d1's partial undelegation take effect (pending withdraw records).
 const nVals = 7
@@ -112,9 +113,15 @@ func newWorld() (*world, error) {
 		1: {func() (*types.Transaction, error) {
 			return w.StakingTx(v2, 0, staking.ValidatorUpdate, &staking.TxUpdateValidator{MainAddress: v2.Addr, AcceptDelegation: params.AcceptDelegation,
 				CommissionRate: 1000, RiskObligation: 2000}, 300000)
+		}, func() (*types.Transaction, error) {
+			// v1 accepts delegations too: delegator d1 delegates to TWO validators (v2 and v1)
+			return w.StakingTx(w.Vals[1], 0, staking.ValidatorUpdate, &staking.TxUpdateValidator{MainAddress: w.Vals[1].Addr, AcceptDelegation: params.AcceptDelegation,
+				CommissionRate: 0xffff, RiskObligation: 0xffff}, 300000)
 		}},
 		5: {func() (*types.Transaction, error) {
 			return w.StakingTx(dlg[1], 0, staking.DelegationAdd, &staking.TxDelegation{Validator: v2.Addr, Value: big.NewInt(250)}, 300000)
+		}, func() (*types.Transaction, error) {
+			return w.StakingTx(dlg[1], 1, staking.DelegationAdd, &staking.TxDelegation{Validator: w.Vals[1].Addr, Value: big.NewInt(100)}, 300000)
 		}, func() (*types.Transaction, error) {
 			return w.StakingTx(dlg[2], 0, staking.DelegationAdd, &staking.TxDelegation{Validator: v2.Addr, Value: big.NewInt(130)}, 300000)
 		}, func() (*types.Transaction, error) {
@@ -124,7 +131,10 @@ func newWorld() (*world, error) {
 			return w.StakingTx(v7, 0, staking.ValidatorWithDraw, &staking.TxValidatorWithdraw{MainAddress: v7.Addr, Recipient: v7.Addr, Value: big.NewInt(400)}, 300000)
 		}},
 		9: {func() (*types.Transaction, error) {
-			return w.StakingTx(dlg[1], 1, staking.DelegationSub, &staking.TxDelegation{Validator: v2.Addr, Value: big.NewInt(100)}, 300000)
+			// d1's pending withdrawal from v1 enters the queue BEFORE its pending withdrawal from v2
+			return w.StakingTx(dlg[1], 2, staking.DelegationSub, &staking.TxDelegation{Validator: w.Vals[1].Addr, Value: big.NewInt(40)}, 300000)
+		}, func() (*types.Transaction, error) {
+			return w.StakingTx(dlg[1], 3, staking.DelegationSub, &staking.TxDelegation{Validator: v2.Addr, Value: big.NewInt(100)}, 300000)
 		}, func() (*types.Transaction, error) {
 			return w.StakingTx(v2, 1, staking.ValidatorWithDraw, &staking.TxValidatorWithdraw{MainAddress: v2.Addr, Recipient: v2.Addr, Value: big.NewInt(230)}, 300000)
 		}, func() (*types.Transaction, error) {
